@@ -39,6 +39,8 @@ type modelCases struct {
 	respInfo   []any
 	partInfo   []any
 	rpartInfo  []any
+	codec      []string
+	codecInfo  []any
 	seenPart   map[string]bool
 }
 
@@ -965,6 +967,9 @@ func (mc *modelCases) write(out string, res *vh.Result) error {
 	if err := w("cases_response.txt", mc.response); err != nil {
 		return err
 	}
-	bs, _ := json.Marshal(map[string]any{"partition": mc.partInfo, "rpartition": mc.rpartInfo, "request": mc.reqInfo, "response": mc.respInfo})
+	if err := w("cases_codec.txt", mc.codec); err != nil {
+		return err
+	}
+	bs, _ := json.Marshal(map[string]any{"partition": mc.partInfo, "rpartition": mc.rpartInfo, "request": mc.reqInfo, "response": mc.respInfo, "codec": mc.codecInfo})
 	return os.WriteFile(filepath.Join(out, "cases_info.json"), bs, 0o644)
 }
